@@ -109,6 +109,12 @@ theorem noSyl_newPhrase (sh : Shared D L) : NoSyl (newPhrase env sh) := by
   · exact noSyl_panic _
   · exact noSyl_fuel
 
+theorem noSyl_openPhrase (sh : Shared D L) : NoSyl (openPhrase env sh) := by
+  intro sh' t h
+  rcases openPhrase_cases env h with ⟨h1, _⟩ | ⟨rfl, _⟩
+  · exact noSyl_newPhrase env sh sh' t h1
+  · intro s hs; cases hs
+
 theorem noSyl_newPhraseSimple (sh : Shared D L) : NoSyl (newPhraseSimple sh) := by
   unfold newPhraseSimple
   simp only
@@ -130,7 +136,7 @@ theorem noSyl_startSelecting (sh : Shared D L) : NoSyl (startSelecting env sh) :
   unfold startSelecting
   repeat' split
   all_goals first
-    | exact noSyl_newPhrase env _
+    | exact noSyl_openPhrase env _
     | exact noSyl_newSpecialSymbol _ _
     | nosyl_leaf
 
@@ -138,7 +144,7 @@ theorem noSyl_startSelectingOrInputSpace (sh : Shared D L) : NoSyl (startSelecti
   unfold startSelectingOrInputSpace
   repeat' split
   all_goals first
-    | exact noSyl_newPhrase env _
+    | exact noSyl_openPhrase env _
     | exact noSyl_newSpecialSymbol _ _
     | nosyl_leaf
 
@@ -354,6 +360,12 @@ theorem sylIs_newPhrase (sh : Shared D L) : SylIs sh.syl (newPhrase env sh) := b
   · exact sylIs_panic _ _
   · exact sylIs_fuel _
 
+theorem sylIs_openPhrase (sh : Shared D L) : SylIs sh.syl (openPhrase env sh) := by
+  intro sh' t h
+  rcases openPhrase_cases env h with ⟨h1, _⟩ | ⟨_, rfl⟩
+  · exact sylIs_newPhrase env sh sh' t h1
+  · rfl
+
 theorem sylIs_newPhraseSimple (sh : Shared D L) : SylIs sh.syl (newPhraseSimple sh) := by
   unfold newPhraseSimple
   simp only
@@ -375,7 +387,7 @@ theorem sylIs_startSelecting (sh : Shared D L) : SylIs sh.syl (startSelecting en
   unfold startSelecting
   repeat' split
   all_goals first
-    | exact sylIs_newPhrase env _
+    | exact sylIs_openPhrase env _
     | exact sylIs_newSpecialSymbol _ _
     | sylis_leaf
 
@@ -384,7 +396,7 @@ theorem sylIs_startSelectingOrInputSpace (sh : Shared D L) :
   unfold startSelectingOrInputSpace
   repeat' split
   all_goals first
-    | exact sylIs_newPhrase env _
+    | exact sylIs_openPhrase env _
     | exact sylIs_newSpecialSymbol _ _
     | sylis_leaf
 
@@ -671,6 +683,13 @@ theorem retarget_syl (s : Selecting) (sh : Shared D L) : SylIs sh.syl (retarget 
     | exact sylIs_fuel _
     | sylis_leaf
 
+theorem selKeep_closeIfEmpty (l0 : L) (r : SelRes D L) (h1 : r.shared.syl = l0) (h2 : r.trans.notSyl) :
+    SelKeep l0 (closeIfEmpty env r) := by
+  intro x h
+  rcases closeIfEmpty_cases env h with rfl | rfl
+  · exact ⟨h1, h2⟩
+  · exact ⟨h1, fun s hs => by injection hs with hs; subst hs; intro hc; cases hc⟩
+
 theorem selKeep_selMove (s : Selecting) (sh : Shared D L) (isJ : Bool) : SelKeep sh.syl (selMove env s sh isJ) := by
   unfold selMove
   split
@@ -679,12 +698,10 @@ theorem selKeep_selMove (s : Selecting) (sh : Shared D L) (isJ : Bool) : SelKeep
     split
     · rename_i sh' s' hq
       have := retarget_syl env s _ sh' _ hq
-      intro x h; injection h with h; subst h
-      exact ⟨this, fun s hs => by cases hs⟩
+      exact selKeep_closeIfEmpty env _ _ this (fun s hs => by cases hs)
     · rename_i sh' t hn hq
       have := retarget_syl env s _ sh' _ hq
-      intro x h; injection h with h; subst h
-      exact ⟨this, fun s hs => by cases hs⟩
+      exact selKeep_closeIfEmpty env _ _ this (fun s hs => by cases hs)
     · exact selKeep_panic _ _
     · exact selKeep_fuel _
 
